@@ -379,8 +379,12 @@ func c18RaceRun(r *vkit.Run) {
 		iters = 2000
 	}
 	for _, sc := range c18Scenarios {
-		ctrs := c18Containers(sc)
 		for it := 0; it < iters; it++ {
+			ctrs := c18Containers(sc)
+			if it%5 == 4 {
+				// one open fails while the others succeed (error paths run concurrently with the successful opens)
+				ctrs[it%len(ctrs)].OpenErr = fakedocker.ErrInjected
+			}
 			fake := fakedocker.New(ctrs)
 			k := it
 			fake.Yield = func(string) {
